@@ -58,7 +58,7 @@ func (f *opFeatures) scanSteps(ss []Step) {
 		switch st.A {
 		case "pa":
 			f.panics = true
-		case "pr", "pf":
+		case "pr", "pf", "prr":
 			f.nested = true
 		}
 		if len(st.S) > 60<<10 {
